@@ -919,6 +919,14 @@ class Folder:
                     dims_ = [n_ for n_ in _shape(v) if n_ != 1]
                     return _reshape(v, dims_) if dims_ else _flat(v)[0]
                 d = self.fold(node.args[0])
+                if isinstance(v, list) and not isinstance(v, PySeq) and isinstance(d, int) and not isinstance(d, bool):
+                    shp_ = _regular(v)
+                    if -len(shp_) <= d < len(shp_) and 0 not in shp_:
+                        d_ = d % len(shp_)
+                        if shp_[d_] != 1:
+                            return v
+                        rest_ = shp_[:d_] + shp_[d_ + 1:]
+                        return _reshape(v, rest_) if rest_ else _flat(v)[0]
                 if isinstance(v, list) and d == 0:
                     return v[0] if len(v) == 1 else v
                 if isinstance(v, list) and d in (-1, _depth(v) - 1):
@@ -1077,6 +1085,8 @@ class Folder:
                         base_ = _reshape(v, shp2_)
                         return _build_from([a_ * b_ for a_, b_ in zip(shp2_, sizes_)], lambda idx: _at(base_, [i_ % n_ for i_, n_ in zip(idx, shp2_)]))
                 raise Unfoldable(f"method {m} beyond 1-D")
+            if m == "nonzero" and not node.args and all(k.arg == "as_tuple" for k in node.keywords):
+                return self.fold(ast.Call(func=ast.Attribute(value=ast.Name(id="torch", ctx=ast.Load()), attr="nonzero", ctx=ast.Load()), args=[node.func.value], keywords=list(node.keywords)))
             if m in ("clip", "clamp", "log1p", "minimum", "maximum", "flip", "fliplr", "flipud", "angle"):
                 fake = ast.Call(func=ast.Attribute(value=ast.Name(id="torch", ctx=ast.Load()), attr=m, ctx=ast.Load()), args=[node.func.value] + list(node.args), keywords=list(node.keywords))
                 return self.fold(fake)
@@ -1493,6 +1503,8 @@ class Folder:
             if short in ("eq", "ne", "gt", "lt", "ge", "le") and nm.startswith("torch.") and len(node.args) == 2 and not node.keywords:
                 op_ = {"eq": ast.Eq, "ne": ast.NotEq, "gt": ast.Gt, "lt": ast.Lt, "ge": ast.GtE, "le": ast.LtE}[short]()
                 return self.fold(ast.Compare(left=node.args[0], ops=[op_], comparators=[node.args[1]]))
+            if short == "is_complex" and nm == "torch.is_complex" and len(node.args) == 1 and not node.keywords:
+                return self.fold(ast.Call(func=ast.Attribute(value=node.args[0], attr="is_complex", ctx=ast.Load()), args=[], keywords=[]))
             if short == "equal" and nm == "torch.equal" and len(node.args) == 2 and not node.keywords:
                 a_, b_ = self.fold(node.args[0]), self.fold(node.args[1])
                 if isinstance(a_, PySeq) or isinstance(b_, PySeq):
